@@ -85,6 +85,7 @@ func main() {
 		c.argOps()
 		c.poolResidue(c.accepted("ids", "recursive", "leaf", "evolution", "scalars"), 200*n)
 		c.resolveAll(false)
+		c.staleProbe()
 	case "C08":
 		workers := 8
 		if *tier == "thorough" {
